@@ -23,9 +23,20 @@ TOLERATED_INCONCLUSIVE = 0
 _st = {}
 
 
+def near_limit_items():
+    """inputs whose nesting sits just below / at the recursion limit and whose innermost token is the first of its kind: work that is done
+    once per process (a pattern compiled on first use, a table filled lazily) costs stack only the first time"""
+    out = []
+    for lit in ("f'a'", "'s'", "b'y'", "rf'\\d{a}'", 'f"""{a:>{w}}"""', "p'/x'", "`g*`", "0x1f", "$(ls)", "f!(z)"):
+        for d in (18, 20, 21, 22):
+            for k in (0, 8):
+                out.append("v = " + "(" * d + "-" * k + lit + ")" * d + "\n")
+    return out
+
+
 def build_pool(seed, n):
     rnd = random.Random(f"pool:{seed}")
-    pool = list(gen_xonsh.XONSH_STMTS + gen_xonsh.PY_STMTS + gen_xonsh.UNTERMINATED)
+    pool = near_limit_items() + list(gen_xonsh.XONSH_STMTS + gen_xonsh.PY_STMTS + gen_xonsh.UNTERMINATED)
     pool += rnd.sample(gen_py.SEEDS, 60)
     extra = ["x = p'/a' / pf'{b}'\n", "f!(a, b)\nwith! c:\n    d e\nx = 1\n", "$(echo! a b)\ny = 2\n", "x = f'{a!r:>{w}}' 'tail'\n", "range?\n", "f!(]\n", "with! x:\n", "f!(a,, b)\n",
              "$[echo!]\n", "x = $(timeit!)\nz = 1\n", "f!()\n", "f!(x)g!(y))\n", "f!(a, (b)\n", "with! q: \n", "$(echo a.b?)\n", "$(lx?).split()\n", "x = [$(ax?) for a in $PATH]\n", "r = !(ls??)\n", "x = 'a' b'b'\n", "if a:\n  b\n c\n", "x = (\n", "x = '''a\n", "é = 'ü'\n", "try:\n    pass\nexcept* A:\n    pass\n", "type X[T] = list[T]\n"]
@@ -63,8 +74,15 @@ def worker_init():
     base.load_repo()
 
 
-def sig_of(src, mode="exec"):
-    out = base.parse(src, mode)
+def observe(src):
+    """one observed parse: through the monitored class, and from the same stack depth wherever it is called (reference child, history,
+    worker thread) - see base.at_depth"""
+    Mon = monitored_class()
+    return base.at_depth(lambda: base.guarded(Mon.parse_string, src, mode="exec"))
+
+
+def sig_of(src):
+    out = observe(src)
     return base.h64(out.sig()), out.brief(), out
 
 
@@ -131,7 +149,7 @@ def quiescence(acc, case):
         bad.append(f"macro flag left set: call={t._call_macro} with={t._with_macro} proc={t._proc_macro}")
     if t._stack:
         bad.append(f"push-back stack not empty: {t._stack!r:.80}")
-    if p._path_token is not None:
+    if getattr(p, "_path_token", None) is not None:  # (attribute removed from the repository by the path-prefix repair)
         bad.append("_path_token left set")
     if p.in_recursive_rule != 0:
         bad.append(f"in_recursive_rule={p.in_recursive_rule}")
@@ -162,7 +180,7 @@ def run_history(acc, pool, refs, rnd, length, hid):
     for pos, i in enumerate(order):
         s = pool[i]
         case = {"history_seed": hid, "pos": pos, "src": s, "prefix": [pool[j] for j in order[max(0, pos - 3) : pos]]}
-        out = base.guarded(Mon.parse_string, s, mode="exec")
+        out = observe(s)
         if out.kind == "timeout":
             acc.inconc("case-watchdog", case)
             continue
@@ -179,7 +197,7 @@ def run_history(acc, pool, refs, rnd, length, hid):
             if rnd.random() < 0.08 and len(retained) < 40:
                 retained.append((i, out.value, base.stable_dump(out.value), node_ids(out.value)))
         if rnd.random() < 0.1:
-            out2 = base.guarded(Mon.parse_string, s, mode="exec")
+            out2 = observe(s)
             acc.count("immediate_repeats")
             if out2.kind != "timeout" and base.h64(out2.sig()) != h:
                 acc.violation("repeat-differs", case, {"first": out.brief()[:120], "second": out2.brief()[:120]})
@@ -198,6 +216,10 @@ def run_history(acc, pool, refs, rnd, length, hid):
 def run_threads(acc, pool, refs, rnd, nthreads, per_thread, inject):
     Mon = monitored_class()
     orders = [[rnd.randrange(len(pool)) for _ in range(per_thread)] for _ in range(nthreads)]
+    if inject:
+        # the LINE callback is a Python frame of its own on top of the parser's stack: inputs at the recursion limit are left to the other runs
+        near = set(near_limit_items())
+        orders = [[i for i in o if pool[i] not in near] for o in orders]
     results = [[] for _ in range(nthreads)]
     stats = {"switches": 0, "last": None, "points": set(), "events": 0}
     mon = sys.monitoring
@@ -233,7 +255,7 @@ def run_threads(acc, pool, refs, rnd, nthreads, per_thread, inject):
 
     def work(k):
         for i in orders[k]:
-            out = base_guard_threadsafe(Mon.parse_string, pool[i])
+            out = base.at_depth(lambda i=i: base_guard_threadsafe(Mon.parse_string, pool[i]))
             results[k].append((i, out))
 
     old = sys.getswitchinterval()
@@ -289,7 +311,7 @@ def run_shard(shard):
         refs = reference(pool)
         Mon = monitored_class()
         for i, s in enumerate(pool):
-            out = base.guarded(Mon.parse_string, s, mode="exec")
+            out = observe(s)
             acc.evals += 1
             if base.h64(out.sig()) != refs[i]:
                 acc.violation("outcome-depends-on-history", {"src": s, "prefix": pool[:i]}, {"observed": out.brief()})
